@@ -218,12 +218,15 @@ func MarshalToFunc[T any](fn func(*jsontext.Encoder, T) error) *Marshalers {
 		fnc: func(enc *jsontext.Encoder, va addressableValue, mo *jsonopts.Struct) error {
 			xe := export.Encoder(enc)
 			prevDepth, prevLength := xe.Tokens.DepthLength()
+			prevWithin := xe.Flags.Get(jsonflags.WithinArshalCall)
 			xe.Flags.Set(jsonflags.WithinArshalCall | 1)
 			prevFloor := xe.Tokens.Floor
 			xe.Tokens.Floor = len(xe.Tokens.Stack)
 			v, _ := reflect.TypeAssert[T](va.castTo(t))
 			err := fn(enc, v)
-			xe.Flags.Set(jsonflags.WithinArshalCall | 0)
+			if !prevWithin { // still within the enclosing user call otherwise
+				xe.Flags.Set(jsonflags.WithinArshalCall | 0)
+			}
 			xe.Tokens.Floor = prevFloor
 			currDepth, currLength := xe.Tokens.DepthLength()
 			if err == nil && (prevDepth != currDepth || prevLength+1 != currLength) {
@@ -308,12 +311,15 @@ func UnmarshalFromFunc[T any](fn func(*jsontext.Decoder, T) error) *Unmarshalers
 			if prevDepth == 1 && xd.AtEOF() {
 				return io.EOF // check EOF early to avoid fn reporting an EOF
 			}
+			prevWithin := xd.Flags.Get(jsonflags.WithinArshalCall)
 			xd.Flags.Set(jsonflags.WithinArshalCall | 1)
 			prevFloor := xd.Tokens.Floor
 			xd.Tokens.Floor = len(xd.Tokens.Stack)
 			v, _ := reflect.TypeAssert[T](va.castTo(t))
 			err := fn(dec, v)
-			xd.Flags.Set(jsonflags.WithinArshalCall | 0)
+			if !prevWithin { // still within the enclosing user call otherwise
+				xd.Flags.Set(jsonflags.WithinArshalCall | 0)
+			}
 			xd.Tokens.Floor = prevFloor
 			currDepth, currLength := xd.Tokens.DepthLength()
 			if err == nil && (prevDepth != currDepth || prevLength+1 != currLength) {
